@@ -256,7 +256,13 @@ def documents(ctx: Ctx, thorough):
                 constants={"Variant": '"sound"', "MaxDepth": 3, "MaxElems": 3, "MaxDecls": 1, "Family": '"all"'})
     nsdocs = list({json.dumps(x["doc"], sort_keys=True): x["doc"] for x in r.json_records()}.values())
     xs = (c17.xsd("urn:A"), c17.xsd("urn:B"), c17.xsd(""))
-    for i, d in enumerate(nsdocs[:: (40 if thorough else 300)]):
+    # ... and deeper documents that re-bind one prefix on several levels and CLOSE such scopes before later
+    # siblings (the in-scope namespaces of what follows a closed scope)
+    r2 = ctx.tlc("Namespaces", "Namespaces.cfg", tag="docs-ns-ponly", workers=4,
+                 constants={"Variant": '"sound"', "MaxDepth": 3, "MaxElems": 4, "MaxDecls": 1, "Family": '"ponly"'})
+    deep = list({json.dumps(x["doc"], sort_keys=True): x["doc"] for x in r2.json_records()}.values())
+    nsdocs = nsdocs[:: (40 if thorough else 300)] + deep[:: (7 if thorough else 60)]
+    for i, d in enumerate(nsdocs):
         xml, names = c17.render(d, i)
         # the multi-namespace schema's main namespace must be the root's
         order = {"{urn:A}e": (xs[0], xs[1], xs[2]), "{urn:B}e": (xs[1], xs[0], xs[2]), "e": (xs[2], xs[0], xs[1])}
